@@ -303,6 +303,9 @@ class get_marked_import_visitor(StopNodeVisitor):
 
 def get_indexes_for_target(target, result, idx):
     # type: (AST, list[tuple[Targets, list[int]]], list[int]) -> list[tuple[Targets, list[int]]]
+    if type(target) is Starred and isinstance(target.value, NESTED_INDEXED_NODES):
+        target = target.value
+
     if isinstance(target, NESTED_INDEXED_NODES):
         for i, r in enumerate(target.elts):
             nidx = idx[:]
